@@ -8,6 +8,16 @@ def plan(ctx):
     fam = families.c17_family()
     hs = []
     for n, m in enumerate(fam):
+        if m["kind"].endswith("_chain"):
+            side = "encoder" if m["kind"] == "enc_chain" else "decoder"
+            hs.append(Harness(f"gen::c17g::{m['name']}", "C17",
+                              f"{m['fr']}-rate {side}: chain of resets on one object {m['cfgs']} (shrink, then grow again within the capacity held), one full round after each reset: data pointer and capacity"
+                              + (" and the received bitmap's pointer and length" if side == "decoder" else "") + " never change after the first configuration",
+                              encodes=["Shards::resize", "EncoderWork::reset / DecoderWork::reset", "FixedBitSet::grow/clear", "reset_received"],
+                              bounds="concrete configuration chain of 3-4 resets; 1 round per configuration; unwind 66", flags=FULL, timeout=1500, mem_gb=8,
+                              symbolic="shard bytes (one symbolic byte value per shard)",
+                              tiers=("quick", "thorough") if m["cfgs"][0][2] == 130 and len(m["cfgs"]) == 3 else ("thorough",)))
+            continue
         side = "encoder" if m["kind"] == "enc" else "decoder"
         how = "reset" if m["same"] else "into_parts -> new(Some(work)) of the other rate"
         hs.append(Harness(f"gen::c17g::{m['name']}", "C17",
@@ -21,5 +31,5 @@ def plan(ctx):
     return Plan(hs,
                 assumptions=["NullEngine", "'never allocates' is decided as 'the held buffers keep their address and capacity' (Kani ignores custom global allocators, so calls to the allocator cannot be counted); a temporary allocation that leaves the held buffers in place would escape",
                              "Kani's model of Vec/RawVec growth (a resize within capacity keeps the pointer)"],
-                outside=["allocation counting", "the 128 KiB erasure array on the decoder's stack (not shard-proportional)", "configuration pairs other than the 12 enumerated", "DefaultRate/ReedSolomon wrappers (their reset is into_parts/new or inner reset: C09)"],
+                outside=["allocation counting", "the 128 KiB erasure array on the decoder's stack (not shard-proportional)", "configuration pairs other than the 12 enumerated and reset chains other than the 4 enumerated", "DefaultRate/ReedSolomon wrappers (their reset is into_parts/new or inner reset: C09)"],
                 trusted_base=COMMON_TRUSTED)
